@@ -18,6 +18,7 @@ import (
 	"os/exec"
 	"os/signal"
 	"path/filepath"
+	"runtime"
 	"sort"
 	"strings"
 	"sync"
@@ -25,8 +26,10 @@ import (
 	"unsafe"
 
 	"github.com/aws/aws-sdk-go/aws"
+	"github.com/aws/aws-sdk-go/aws/awserr"
 	"github.com/aws/aws-sdk-go/aws/request"
 	"github.com/aws/aws-sdk-go/service/s3"
+	"github.com/aws/aws-sdk-go/service/s3/s3iface"
 	"github.com/jrhy/mast"
 	filep "github.com/jrhy/mast/persist/file"
 	s3p "github.com/jrhy/mast/persist/s3"
@@ -41,8 +44,13 @@ type storeEv struct {
 	Dig     string `json:"dig"` // digest of the bytes given to Store / returned by Load
 	Res     string `json:"res"` // ok | err | panic
 	Inject  bool   `json:"inject"`
-	Writers int    `json:"writers"`
-	Errs    int    `json:"errs"`
+	// the injected error is of the transient class (HTTP 500 after the request body was consumed): a backend may return it or
+	// retry; if it reports success the bytes must be there
+	Transient bool `json:"transient"`
+	// recheck / cload: earlier results looked at again
+	Changed int `json:"changed"`
+	Writers int `json:"writers"`
+	Errs    int `json:"errs"`
 	// s3: every (bucket, key) the call asked the client for, and the intended one
 	Asked  []string `json:"asked"`
 	Intend string   `json:"intend"`
@@ -50,10 +58,25 @@ type storeEv struct {
 }
 
 type fakeS3 struct {
-	mu     sync.Mutex
-	obj    map[string][]byte
-	asked  []string
-	failIn int // fail the next n calls
+	// any further method of the SDK's client interface that the backend may come to use is present (and panics if called, which is
+	// reported as such): the harness keeps compiling when the backend's client interface grows
+	s3iface.S3API
+	mu            sync.Mutex
+	obj           map[string][]byte
+	asked         []string
+	failIn        int // fail the next n calls
+	failTransient int // fail the next n PUTs with a 500 after reading the body
+}
+
+func (f *fakeS3) HeadObjectWithContext(ctx aws.Context, in *s3.HeadObjectInput, _ ...request.Option) (*s3.HeadObjectOutput, error) {
+	f.mu.Lock()
+	defer f.mu.Unlock()
+	f.asked = append(f.asked, f.key(in.Bucket, in.Key))
+	b, ok := f.obj[f.key(in.Bucket, in.Key)]
+	if !ok {
+		return nil, awserr.NewRequestFailure(awserr.New("NotFound", "Not Found", nil), 404, "harness")
+	}
+	return &s3.HeadObjectOutput{ContentLength: aws.Int64(int64(len(b)))}, nil
 }
 
 func (f *fakeS3) key(b, k *string) string { return aws.StringValue(b) + "|" + aws.StringValue(k) }
@@ -86,6 +109,10 @@ func (f *fakeS3) PutObjectWithContext(ctx aws.Context, in *s3.PutObjectInput, _ 
 	if f.failIn > 0 {
 		f.failIn--
 		return nil, errInjected
+	}
+	if f.failTransient > 0 {
+		f.failTransient--
+		return nil, awserr.NewRequestFailure(awserr.New("InternalError", "We encountered an internal error. Please try again.", nil), 500, "harness")
 	}
 	if err != nil {
 		return nil, err
@@ -179,23 +206,46 @@ func storeContractRun(id int, seed int64, scratch string, out *json.Encoder) {
 		out.Encode(e)
 	}
 	doStore := func(i int, inject bool) {
+		transient := false
 		if inject {
 			switch backend {
 			case "s3":
-				fs.failIn = 1
+				if rng.Intn(2) == 0 {
+					fs.failTransient, transient = 1+rng.Intn(2), true
+				} else {
+					fs.failIn = 1
+				}
 			case "file":
 				// a base path that does not exist: the backend error must surface
 			default:
 				inject = false
 			}
 		}
-		e := storeEv{Op: "store", Name: i, Len: len(payloads[i]), Dig: digestOf(payloads[i]), Inject: inject}
+		e := storeEv{Op: "store", Name: i, Len: len(payloads[i]), Dig: digestOf(payloads[i]), Inject: inject, Transient: transient}
 		target := p
 		if inject && backend == "file" {
 			target = filep.NewPersistForPath(filepath.Join(dir, "does-not-exist"))
 		}
 		e.Res, e.Msg = guard(func() error { return target.Store(ctx, names[i], payloads[i]) })
+		if fs != nil {
+			fs.failTransient = 0
+		}
 		emit(e)
+	}
+	// what earlier Loads returned is the caller's: looked at again after later calls
+	type heldT struct {
+		b   []byte
+		dig string
+	}
+	var held []heldT
+	recheck := func() {
+		ch := 0
+		for _, h := range held {
+			if digestOf(h.b) != h.dig {
+				ch++
+			}
+		}
+		emit(storeEv{Op: "recheck", Name: -1, Len: len(held), Changed: ch, Res: "ok"})
 	}
 	doLoad := func(i int, inject bool) {
 		if inject {
@@ -214,16 +264,53 @@ func storeContractRun(id int, seed int64, scratch string, out *json.Encoder) {
 		})
 		if e.Res == "ok" {
 			e.Len, e.Dig = len(b), digestOf(b)
+			held = append(held, heldT{b, e.Dig})
 		}
 		emit(e)
 	}
+	// concurrent readers of different names: each compares what it got with what was stored, a little later
+	doCLoad := func() {
+		var wg sync.WaitGroup
+		var mu sync.Mutex
+		bad, n := 0, 0
+		for j := 0; j < 6; j++ {
+			wg.Add(1)
+			go func(j int) {
+				defer wg.Done()
+				for k := 0; k < 20; k++ {
+					i := (j + k) % len(names)
+					b, err := p.Load(ctx, names[i])
+					if err != nil {
+						continue
+					}
+					d1 := digestOf(b)
+					runtime.Gosched()
+					d2 := digestOf(b)
+					mu.Lock()
+					n++
+					if d1 != d2 {
+						bad++
+					}
+					mu.Unlock()
+				}
+			}(j)
+		}
+		wg.Wait()
+		if fs != nil {
+			fs.take()
+		}
+		emit(storeEv{Op: "recheck", Name: -1, Len: n, Changed: bad, Res: "ok"})
+	}
 	for s := 0; s < 14; s++ {
 		i := rng.Intn(len(names))
-		switch x := rng.Intn(10); {
+		switch x := rng.Intn(11); {
 		case x < 4:
 			doStore(i, rng.Intn(6) == 0)
 		case x < 8:
 			doLoad(i, rng.Intn(8) == 0)
+			recheck()
+		case x == 10:
+			doCLoad()
 		default:
 			// concurrent writers of the same name and bytes, then a load
 			w := 2 + rng.Intn(6)
@@ -247,6 +334,7 @@ func storeContractRun(id int, seed int64, scratch string, out *json.Encoder) {
 			doLoad(i, false)
 		}
 	}
+	recheck()
 	if dir != "" {
 		os.RemoveAll(dir)
 	}
@@ -490,6 +578,65 @@ func fileTreeRuns(seed int64, n int, scratch string, self string, out *json.Enco
 			out.Encode(ev)
 			os.RemoveAll(dir)
 		}
+	}
+}
+
+// ---- a third way for a write to be cut short: the filesystem of the node directory runs full (ENOSPC). Needs a size-limited
+// tmpfs, i.e. the right to mount; where that is not available the cases are skipped (and counted as skipped in the evidence).
+func fileEnospcRuns(seed int64, n int, scratch string, out *json.Encoder) {
+	rng := rand.New(rand.NewSource(seed ^ 0xe05))
+	const page = 4096
+	const pages = 12
+	for id := 1; id <= n; id++ {
+		dir := filepath.Join(scratch, fmt.Sprintf("enospc-%d", id))
+		os.MkdirAll(dir, 0755)
+		if err := syscall.Mount("tmpfs", dir, "tmpfs", 0, fmt.Sprintf("size=%dk", pages*page/1024)); err != nil {
+			os.RemoveAll(dir)
+			out.Encode(fileEv{Op: "fcrash", ID: 9000000 + id, Mode: "enospc", Child: "broken", Msg: "mount: " + err.Error()})
+			return
+		}
+		func() {
+			defer os.RemoveAll(dir)
+			defer syscall.Unmount(dir, syscall.MNT_DETACH)
+			size := page*(2+rng.Intn(4)) + rng.Intn(page)
+			pseed := rng.Int63()
+			payload := filePayload(size, pseed)
+			name := randName(rng)
+			need := (size + page - 1) / page
+			free := rng.Intn(need + 1) // pages left for the node: 0..need (need = it fits)
+			filler := filepath.Join(dir, "filler")
+			if err := os.WriteFile(filler, make([]byte, (pages-free)*page), 0644); err != nil {
+				out.Encode(fileEv{Op: "fcrash", ID: 9000000 + id, Mode: "enospc", Child: "broken", Msg: "filler: " + err.Error()})
+				return
+			}
+			ev := fileEv{Op: "fcrash", ID: 9000000 + id, Len: size, Limit: free * page, Mode: "enospc"}
+			p := filep.NewPersistForPath(dir)
+			res, msg := guard(func() error { return p.Store(ctx, name, payload) })
+			ev.Child, ev.Msg = res, msg
+			os.Remove(filler) // the condition goes away
+			load := func() (int, bool) {
+				b, err := p.Load(ctx, name)
+				if err != nil {
+					return -1, false
+				}
+				return len(b), bytes.Equal(b, payload)
+			}
+			ev.Load1, ev.Same1 = load()
+			res, msg = guard(func() error { return p.Store(ctx, name, payload) })
+			ev.Restore = res
+			if msg != "" {
+				ev.Msg += " restore: " + msg
+			}
+			ev.Load2, ev.Same2 = load()
+			if ents, err := os.ReadDir(dir); err == nil {
+				for _, e := range ents {
+					if e.Name() != name {
+						ev.Extra++
+					}
+				}
+			}
+			out.Encode(ev)
+		}()
 	}
 }
 
